@@ -242,27 +242,61 @@ impl Default for Sched {
 }
 
 thread_local! {
-    static IS_CTL: Cell<Option<bool>> = const { Cell::new(None) };
+    /// Some(k) on a worker of the k-th controlled pool (threads named "ctl<k>-<i>")
+    static CTL_SLOT: Cell<Option<Option<usize>>> = const { Cell::new(None) };
 }
 
-/// Only threads of the dedicated controlled pool (named "ctl-<i>") are scheduled; searches
-/// running elsewhere in the process are ignored.
-fn on_controlled_thread() -> bool {
-    IS_CTL.with(|c| match c.get() {
+/// Only threads of the dedicated controlled pools are scheduled; searches running elsewhere
+/// in the process are ignored.
+fn controlled_slot() -> Option<usize> {
+    CTL_SLOT.with(|c| match c.get() {
         Some(b) => b,
         None => {
-            let b = std::thread::current().name().map(|n| n.starts_with("ctl-")).unwrap_or(false);
+            let b = std::thread::current().name().and_then(|n| {
+                let rest = n.strip_prefix("ctl")?;
+                let k: String = rest.chars().take_while(|ch| ch.is_ascii_digit()).collect();
+                k.parse::<usize>().ok()
+            });
             c.set(Some(b));
             b
         }
     })
 }
 
+/// Several independent schedulers behind the one process-wide observer: the k-th one controls
+/// the searches running in the pool whose threads are named "ctl<k>-*".
+pub struct MultiSched {
+    pub slots: Vec<std::sync::Arc<Sched>>,
+}
+
+impl MultiSched {
+    pub fn new(n: usize) -> MultiSched {
+        MultiSched {
+            slots: (0..n).map(|_| std::sync::Arc::new(Sched::new())).collect(),
+        }
+    }
+}
+
+impl SearchObserver for MultiSched {
+    fn on_event(&self, ev: &SearchEvent) {
+        if let Some(k) = controlled_slot() {
+            if let Some(s) = self.slots.get(k) {
+                s.handle(ev);
+            }
+        }
+    }
+}
+
 impl SearchObserver for Sched {
     fn on_event(&self, ev: &SearchEvent) {
-        if !on_controlled_thread() {
-            return;
+        if controlled_slot().is_some() {
+            self.handle(ev);
         }
+    }
+}
+
+impl Sched {
+    pub fn handle(&self, ev: &SearchEvent) {
         match ev {
             SearchEvent::SearchBegin { tasks } => {
                 let mut st = self.st.lock().unwrap();
